@@ -46,7 +46,7 @@ CLAIMED = {
    "Visiting orders are sampled, not enumerated (no hook). For cycles the first chain entry may be the rejected script at one of its use calls or the closing call.",
    "bounded exhaustive enumeration of configurations against a reference graph model (plus rapid sampling for 4-script sets)"),
  "C13": ("exploration",
-   "Random call trees (depth <= 3, 2..4 scripts) whose bodies share one name pool and the point, with exit() and failing statements inserted at sampled statement positions of every script; ordered probe trace, final point and the exact error chain (failing statement in the callee, then every use call site outward) are compared with the reference model. Also: use chains of depth 5..40 ending in exit(), perr() or an ill-typed statement; history checks as in C02 (a loaded script set is run several times). Further: exit() inside value statements, assignment sources, conditions and arguments; four script-name schemes.",
+   "Random call trees (depth <= 3, 2..4 scripts) whose bodies share one name pool and the point, with exit() and failing statements inserted at sampled statement positions of every script; ordered probe trace, final point and the exact error chain (failing statement in the callee, then every use call site outward) are compared with the reference model. Also: use chains of depth 5..40 ending in exit(), perr() or an ill-typed statement; history checks as in C02 (a loaded script set is run several times). Further: exit() inside value statements, assignment sources, conditions and arguments; four script-name schemes. Round 6: half of the sets are loaded with one function table per script (parse, Check, exported linker) in which every probe function checks that it runs on behalf of the script whose table it sits in; script names with '%'.",
    "Call graphs are acyclic by construction; loading goes through ParseScript. Insert positions are sampled (6 per set quick, 16 thorough), not all enumerated.",
    "model-based property testing (rapid) over script sets"),
  "C14": ("fault_enumeration",
@@ -54,12 +54,12 @@ CLAIMED = {
    "Promptness is measured in polls/probe calls, not time; a 20 s watchdog is the only clock and only matters for empty-bodied infinite loops. Fault points are the signal's polls, i.e. the interpreter's own poll sites.",
    "fault enumeration over the poll index of a harness-owned cancellation signal, on rapid-generated programs"),
  "C18": ("exploration",
-   "Exhaustive (value-less construct x consuming position x predecessor) table (7 x 27 x 7) and random v2 programs with multi-assignment, swaps and multi-value functions, compared with the reference model in the v2 dialect; programs inside the common language are additionally run on v1 and must give the same trace. Also: v2 loop-scope table (a body-local name read in a later pass), v2 slice-copy table (a write through a slice or its source is not visible in the other), multi-assignment with element targets and aliases; history checks as in C02. Further: inner loops left by break after the body-local assignment, v2 index paths of depth 1..3 with absent keys, loop-clause scope cases.",
+   "Exhaustive (value-less construct x consuming position x predecessor) table (7 x 27 x 7) and random v2 programs with multi-assignment, swaps and multi-value functions, compared with the reference model in the v2 dialect; programs inside the common language are additionally run on v1 and must give the same trace. Also: v2 loop-scope table (a body-local name read in a later pass), v2 slice-copy table (a write through a slice or its source is not visible in the other), multi-assignment with element targets and aliases; history checks as in C02. Further: inner loops left by break after the body-local assignment, v2 index paths of depth 1..3 with absent keys, loop-clause scope cases. Round 6: one loaded script run 2..4 times along different paths (probe function pmode() chosen per run): a run failing inside an if / for / for-in block after top-level assignments, followed by a run that reads such a name before assigning it and by runs that complete, each compared with the reference started from nothing; a v2 for-in sees writes to positions it has not reached (through the name, an alias, a container).",
    "v2 builtins come from the harness's function table and read their arguments through GetParam, like real v2 builtins.",
    "exhaustive table + model-based and differential (v1 vs v2) property testing (rapid)"),
  "C19": ("exploration",
-   "All 3616 parameter lists of length <= 3 (and, thorough, all 50625 of length 4) are validated against a reference validator; every valid list is crossed with all 781 call shapes of <= 4 arguments (thorough: <= 5) and the values received through GetParam are compared with a reference binder; typed getters with well/ill-typed arguments. Also: several calls in one run - nested in each other's arguments and in sequence - with values kept by reference and compared at the end of the run, nil arguments, default factories returning fresh collections that the callee writes to, 8..100 parameters and up to 300 variadic arguments. Further: script variables spelled like parameters stay untouched, one call of the script made unbindable must reject the load wherever it sits, call statements placed after a conditional continue / break, Check called again before the run.",
-   "Names from {a,b,c,1x,\"\"}; argument values are integer literals.",
+   "All 14425 parameter lists of length <= 3 (and, thorough, all 331776 of length 4) are validated against a reference validator; every valid list is crossed with all 1555 call shapes of <= 4 arguments (thorough: <= 5) and the values received through GetParam are compared with a reference binder; typed getters with well/ill-typed arguments. Also: several calls in one run - nested in each other's arguments and in sequence - with values kept by reference and compared at the end of the run, nil arguments, default factories returning fresh collections that the callee writes to, 8..100 parameters and up to 300 variadic arguments. Further: script variables spelled like parameters stay untouched, one call of the script made unbindable must reject the load wherever it sits, call statements placed after a conditional continue / break, Check called again before the run. Round 6: a fourth parameter kind (variadic with a default, never valid) and names differing only by letter case ('a'/'A', 'sep'/'Sep'/'SEP') in lists and calls.",
+   "Names from {a,b,c,A,1x,\"\"}; argument values are integer literals.",
    "exhaustive enumeration against a reference binder, plus rapid sampling of longer lists/calls"),
 
  "C08": ("exploration",
@@ -75,7 +75,7 @@ CLAIMED = {
    "spf13/cast, fmt, strings, regexp, net/url, encoding/json are trusted as the documented conversion primitives.",
    "exhaustive cross-product enumeration + model-based property testing (rapid)"),
  "C12": ("exploration",
-   "Random grok programs with add_pattern definitions and grok calls scattered over nested blocks (visible and invisible references, typed captures, trim_space, all subject situations), datetime over the documented layout table, default_time over 16 layouts x 14 zone arguments x subject situations, xml over generated documents x XPath queries, sql_cover over generated SQL and garbage; compared with a reference that applies the same third-party engines under the harness's own lexical scope / lookup / destination model. Also: pattern names redefined in the same block and shadowed in nested blocks, expressions with up to 100 captures, alias chains to depth 40, subjects of 70000 bytes, house layouts with negative offsets and one-digit hours, XML documents preceded by a byte order mark / text / declarations, SQL with backslashes, comments holding quotes and token soup; history checks as in C02. Further: default pattern names redefined in a block, capture names that collide with keys or the message alias, precision spellings.",
+   "Random grok programs with add_pattern definitions and grok calls scattered over nested blocks (visible and invisible references, typed captures, trim_space, all subject situations), datetime over the documented layout table, default_time over 16 layouts x 14 zone arguments x subject situations, xml over generated documents x XPath queries, sql_cover over generated SQL and garbage; compared with a reference that applies the same third-party engines under the harness's own lexical scope / lookup / destination model. Also: pattern names redefined in the same block and shadowed in nested blocks, expressions with up to 100 captures, alias chains to depth 40, subjects of 70000 bytes, house layouts with negative offsets and one-digit hours, XML documents preceded by a byte order mark / text / declarations, SQL with backslashes, comments holding quotes and token soup; history checks as in C02. Further: default pattern names redefined in a block, capture names that collide with keys or the message alias, precision spellings. Round 6: typed captures (:int/:float/:bool) of user patterns that admit padding around the number, with trim_space on and off; float subjects (5e-7, 1e21, NaN, -Inf, -0, 2^53) in every extraction builtin.",
    "grok, dateparse, xmlquery, obfuscate are trusted engines; process TZ=UTC.",
    "model-based property testing (rapid) with the engines as oracles, round-trip for times"),
  "C15": ("exploration",
